@@ -12,7 +12,8 @@ TBool == Ty("Boolean")
 Entry(name, sgs, us, argmenu, varmenu, ops) ==
   [name |-> name, sgs |-> sgs, universes |-> us, argmenu |-> argmenu, varmenu |-> varmenu, ops |-> ops, broken |-> us[1], broken2 |-> us[1]]
 \* pinned operation for the model check of FedNondet
-Op(doc, vars) == [doc |-> doc, vars |-> vars]
+Op(doc, vars) == [doc |-> doc, vars |-> vars, nomodel |-> FALSE]
+OpX(doc, vars) == [doc |-> doc, vars |-> vars, nomodel |-> TRUE]     \* pinned for the replay, not for FedNondet
 Fl(n) == Field(n, "", <<>>, <<>>, <<>>)                     \* leaf field
 Fo(n, sel) == Field(n, "", <<>>, <<>>, sel)                 \* object field
 Bind(n, v) == [name |-> n, val |-> v]
@@ -312,7 +313,10 @@ E5 == Entry("abstract", <<E5_search, E5_books, E5_movies>>, <<E5_U1, E5_U2, E5_U
 \* a list of entities three hops deep (catalog -> library -> people -> library), lists of lists, the same
 \* entity at several positions of one batch
 E6_catalog == SG("catalog", <<
-  Obj("Query", <<>>, <<>>, << F("shelves", Li(NN(Ty("Shelf")))), F("grid", Li(Li(Ty("Book")))) >>),
+  Obj("Query", <<>>, <<>>, << F("shelves", Li(NN(Ty("Shelf")))), F("grid", Li(Li(Ty("Book")))),
+                              \* null bubbling inside a list of lists: [[Book!]] (the inner list absorbs), [[Book!]!] (the whole field
+                              \* absorbs), [[Book]!] (the item absorbs); Book.title: String! is owned by `library`
+                              F("gridA", Li(Li(NN(Ty("Book"))))), F("gridB", Li(NN(Li(NN(Ty("Book")))))), F("gridC", Li(NN(Li(Ty("Book"))))) >>),
   Obj("Shelf", <<>>, <<>>, << F("label", NN(TStr)), F("books", NN(Li(NN(Ty("Book"))))) >>),
   Obj("Book", <<Key(<<FS("isbn")>>)>>, <<>>, << F("isbn", NN(TID)) >>) >>)
 E6_library == SG("library", <<
@@ -323,7 +327,9 @@ E6_people == SG("people", <<
   Obj("Book", <<Key(<<FS("isbn")>>)>>, <<>>, << F("isbn", NN(TID)) >>) >>)
 
 E6_U1 == Uv("all-present", <<
-  O("Q", "Query", [shelves |-> Lst(<<Ref("h1"), Ref("h2")>>), grid |-> Lst(<<Lst(<<Ref("k1"), Ref("k2")>>), Lst(<<Ref("k2")>>)>>)]),
+  O("Q", "Query", [shelves |-> Lst(<<Ref("h1"), Ref("h2")>>), grid |-> Lst(<<Lst(<<Ref("k1"), Ref("k2")>>), Lst(<<Ref("k2")>>)>>),
+                   gridA |-> Lst(<<Lst(<<Ref("k3")>>), Lst(<<>>), Lst(<<Ref("k1"), Ref("k3")>>)>>),
+                   gridB |-> Lst(<<Lst(<<Ref("k2"), Ref("k1")>>)>>), gridC |-> Lst(<<Lst(<<Ref("k1"), Null>>), Lst(<<Ref("k2")>>)>>)]),
   O("h1", "Shelf", [label |-> Str("A"), books |-> Lst(<<Ref("k1"), Ref("k2")>>)]),
   O("h2", "Shelf", [label |-> Str("B"), books |-> Lst(<<Ref("k2"), Ref("k3")>>)]),
   O("k1", "Book", [isbn |-> Str("1"), title |-> Str("One"), authors |-> Lst(<<Ref("w1")>>)]),
@@ -332,14 +338,18 @@ E6_U1 == Uv("all-present", <<
   O("w1", "Writer", [wid |-> Str("w1"), name |-> Str("Wil"), books |-> Lst(<<Ref("k1"), Ref("k2")>>)]),
   O("w2", "Writer", [wid |-> Str("w2"), name |-> Str("Xan"), books |-> Lst(<<Ref("k2"), Ref("k3")>>)]) >>)
 E6_U2 == Uv("nullable-nulls", <<
-  O("Q", "Query", [shelves |-> Lst(<<Ref("h1"), Ref("h2")>>), grid |-> Lst(<<Null, Lst(<<Ref("k1"), Null>>), Lst(<<>>)>>)]),
+  O("Q", "Query", [shelves |-> Lst(<<Ref("h1"), Ref("h2")>>), grid |-> Lst(<<Null, Lst(<<Ref("k1"), Null>>), Lst(<<>>)>>),
+                   gridA |-> Lst(<<Null, Lst(<<Ref("k1")>>)>>), gridB |-> Null, gridC |-> Lst(<<Lst(<<Null, Ref("k1")>>)>>)]),
   O("h1", "Shelf", [label |-> Str("A"), books |-> Lst(<<Ref("k1")>>)]),
   O("h2", "Shelf", [label |-> Str("B"), books |-> Lst(<<>>)]),
   O("k1", "Book", [isbn |-> Str("1"), title |-> Str("One"), authors |-> Lst(<<Ref("w1"), Ref("w2")>>)]),
   O("w1", "Writer", [wid |-> Str("w1"), name |-> Null, books |-> Null]),
   O("w2", "Writer", [wid |-> Str("w2"), name |-> Str("Xan"), books |-> Lst(<<Ref("k1")>>)]) >>)
 E6_U3 == Uv("null-in-nonnull", <<
-  O("Q", "Query", [shelves |-> Lst(<<Ref("h1"), Ref("h2")>>), grid |-> Lst(<<Lst(<<Ref("k1"), Ref("k2")>>)>>)]),
+  O("Q", "Query", [shelves |-> Lst(<<Ref("h1"), Ref("h2")>>), grid |-> Lst(<<Lst(<<Ref("k1"), Ref("k2")>>)>>),
+                   gridA |-> Lst(<<Lst(<<Ref("k1")>>), Lst(<<Ref("k2")>>), Lst(<<Ref("k1"), Ref("k2")>>), Lst(<<Ref("k1")>>)>>),
+                   gridB |-> Lst(<<Lst(<<Ref("k1")>>), Lst(<<Ref("k1"), Ref("k2")>>)>>),
+                   gridC |-> Lst(<<Lst(<<Ref("k1"), Ref("k2")>>), Lst(<<Ref("k2")>>), Lst(<<>>)>>)]),
   O("h1", "Shelf", [label |-> Str("A"), books |-> Lst(<<Ref("k1")>>)]),
   O("h2", "Shelf", [label |-> Str("B"), books |-> Lst(<<Ref("k2")>>)]),
   O("k1", "Book", [isbn |-> Str("1"), title |-> Str("One"), authors |-> Lst(<<Ref("w1")>>)]),
@@ -351,7 +361,8 @@ E6_U4 == Uv("empty-lists", <<
 E6 == Entry("deep", <<E6_catalog, E6_library, E6_people>>, <<E6_U1, E6_U2, E6_U3, E6_U4>>, <<>>, <<>>,
   << Op(Doc(<< Fo("shelves", <<Fl("label"), Fo("books", <<Fl("title"), Fo("authors", <<Fl("name")>>)>>)>>) >>, <<>>, <<>>), <<>>),
      Op(Doc(<< Fo("grid", <<Fl("isbn"), Fo("authors", <<Fo("books", <<Fl("title")>>)>>)>>) >>, <<>>, <<>>), <<>>),
-     Op(Doc(<< Fo("grid", <<Fl("title")>>) >>, <<>>, <<>>), <<>>) >>)
+     Op(Doc(<< Fo("grid", <<Fl("title")>>) >>, <<>>, <<>>), <<>>),
+     Op(Doc(<< Fo("gridA", <<Fl("title")>>), Fo("gridB", <<Fl("isbn"), Fl("title")>>), Fo("gridC", <<Fl("title"), Fo("authors", <<Fl("name")>>)>>) >>, <<>>, <<>>), <<>>) >>)
 
 \* ============================================================================ E7 "values"
 \* enums (output, argument, inside an input object), input-object and list arguments (literal, variable, variable
@@ -677,25 +688,34 @@ E12 == Entry("keys2", <<E12_a, E12_b, E12_c, E12_d>>, <<E12_U1, E12_U2, E12_U3, 
 \* (FedNondet keys its slots of key / @requires inputs without arguments: this entry's requiring field is left out there.)
 E13_prices == SG("prices", <<
   Obj("Query", <<>>, <<>>, << F("wares", NN(Li(NN(Ty("Ware"))))) >>),
-  Obj("Ware", <<Key(<<FS("id")>>)>>, <<>>, << F("id", NN(TID)), FA("price", TInt, "cur", NN(TStr)), F("label", TStr) >>) >>)
+  Obj("Ware", <<Key(<<FS("id")>>)>>, <<>>, << F("id", NN(TID)), FA("price", TInt, "cur", NN(TStr)), F("label", TStr), F("details", Ty("Details")) >>),
+  Obj("Details", <<>>, <<>>, << FA("cost", TInt, "cur", NN(TStr)), F("note", TStr) >>) >>)
 E13_offers == SG("offers", <<
   Obj("Ware", <<Key(<<FS("id")>>)>>, <<>>,
       << F("id", NN(TID)), Ext(FA("price", TInt, "cur", NN(TStr))), Ext(F("label", TStr)),
          Req(F("offer", TStr), <<FSA("price", <<Arg("cur", Str("EUR"))>>)>>),
          Req(F("offer2", TStr), <<FSA("price", <<Arg("cur", Str("USD"))>>), FS("label")>>),
-         Req(F("tag", TStr), <<FS("label")>>) >>) >>)
+         Req(F("tag", TStr), <<FS("label")>>),
+         \* a NESTED required field with an argument: the client may select details { cost(cur: "EUR") } next to it
+         Ext(F("details", Ty("Details"))),
+         Req(F("ship", TStr), <<FSN("details", <<FSA("cost", <<Arg("cur", Str("USD"))>>), FS("note")>>)>>) >>),
+  Obj("Details", <<>>, <<>>, << Ext(FA("cost", TInt, "cur", NN(TStr))), Ext(F("note", TStr)) >>) >>)
 E13_price(e, u) == Fn("cur", <<Case(Str("EUR"), e), Case(Str("USD"), u)>>, Null)
 E13_U1 == Uv("all-present", <<
   O("Q", "Query", [wares |-> Lst(<<Ref("w1"), Ref("w2")>>)]),
-  O("w1", "Ware", [id |-> Str("w1"), price |-> E13_price(Num(10), Num(12)), label |-> Str("one")]),
-  O("w2", "Ware", [id |-> Str("w2"), price |-> E13_price(Num(20), Num(23)), label |-> Str("two")]) >>)
+  O("w1", "Ware", [id |-> Str("w1"), price |-> E13_price(Num(10), Num(12)), label |-> Str("one"), details |-> Ref("x1")]),
+  O("w2", "Ware", [id |-> Str("w2"), price |-> E13_price(Num(20), Num(23)), label |-> Str("two"), details |-> Ref("x2")]),
+  O("x1", "Details", [cost |-> E13_price(Num(1), Num(2)), note |-> Str("n1")]),
+  O("x2", "Details", [cost |-> E13_price(Num(3), Num(4)), note |-> Str("n2")]) >>)
 E13_U2 == Uv("nullable-nulls", <<
   O("Q", "Query", [wares |-> Lst(<<Ref("w1"), Ref("w2")>>)]),
-  O("w1", "Ware", [id |-> Str("w1"), price |-> E13_price(Null, Num(12)), label |-> Null]),
-  O("w2", "Ware", [id |-> Str("w2"), price |-> E13_price(Num(20), Null), label |-> Str("two")]) >>)
+  O("w1", "Ware", [id |-> Str("w1"), price |-> E13_price(Null, Num(12)), label |-> Null, details |-> Null]),
+  O("w2", "Ware", [id |-> Str("w2"), price |-> E13_price(Num(20), Null), label |-> Str("two"), details |-> Ref("x2")]),
+  O("x2", "Details", [cost |-> E13_price(Num(3), Null), note |-> Null]) >>)
 E13_U3 == Uv("empty-lists", << O("Q", "Query", [wares |-> Lst(<<>>)]) >>)
 E13 == Entry("requires3", <<E13_prices, E13_offers>>, <<E13_U1, E13_U2, E13_U3>>,
-  << Menu("Ware.price", << <<Arg("cur", Str("USD"))>>, <<Arg("cur", Str("EUR"))>>, <<Arg("cur", Var("cur"))>> >>) >>,
+  << Menu("Ware.price", << <<Arg("cur", Str("USD"))>>, <<Arg("cur", Str("EUR"))>>, <<Arg("cur", Var("cur"))>> >>),
+     Menu("Details.cost", << <<Arg("cur", Str("EUR"))>>, <<Arg("cur", Str("USD"))>>, <<Arg("cur", Var("cur"))>> >>) >>,
   << VarM("cur", NN(TStr), <<Str("USD"), Str("CHF")>>) >>,
   << Op(Doc(<< Fo("wares", <<Fl("tag"), Fl("label"), Field("price", "", <<Arg("cur", Str("USD"))>>, <<>>, <<>>)>>) >>, <<>>, <<>>), <<>>) >>)
 
